@@ -259,6 +259,7 @@ func checkPrepare(r *Run, p *Prog, la *LockAnalysis) {
 	ptrField := p.FieldOf(domainPkg, "index", "mu.pointers")
 	// derivesFrom: arg contains an expression accepted by isSrc, directly or through the
 	// single definitions (in prepare) of the variables it mentions
+	allowDirect := false
 	var derives func(arg ast.Expr, isSrc func(rhs ast.Expr) bool, depth int) bool
 	derives = func(arg ast.Expr, isSrc func(rhs ast.Expr) bool, depth int) bool {
 		ok := false
@@ -266,7 +267,9 @@ func checkPrepare(r *Run, p *Prog, la *LockAnalysis) {
 			if ok {
 				return false
 			}
-			if e, isExpr := n.(ast.Expr); isExpr && isSrc(e) {
+			// inside the closure itself (depth 0) only variables count: an expression
+			// evaluated there is evaluated when the closure runs, not when it was prepared
+			if e, isExpr := n.(ast.Expr); isExpr && (depth > 0 || allowDirect) && isSrc(e) {
 				ok = true
 				return false
 			}
@@ -310,6 +313,7 @@ func checkPrepare(r *Run, p *Prog, la *LockAnalysis) {
 		call, ok := ast.Unparen(rhs).(*ast.CallExpr)
 		return ok && IsFunc(Callee(fn, call), encFn) && len(call.Args) == 2 && objOf(fn, call.Args[0]) == startParam && mentionsPointers(call.Args[1])
 	})
+	allowDirect = true // the start parameter cannot change between prepare and the run
 	offsetOK := len(wat[0].Args) == 2 && derivesFrom(wat[0].Args[1], func(e ast.Expr) bool { return objOf(fn, e) == startParam && startParam != nil })
 	r.Ob("C02.R2.order", "truncate length and payload come from one snapshot taken in prepare", p.Position(trunc[0].Pos()), lenOK && payloadOK && offsetOK,
 		fmt.Sprintf("truncate length from len(pointers): %v; payload from encode(start, pointers): %v; write offset from start: %v", lenOK, payloadOK, offsetOK))
